@@ -20,7 +20,7 @@
   returns, the root's `calls` / `calls_after_error`, the length of its log and the digest of the
   log's text (`fmt_log` of common.rs) — on the root kind (`native`) and through the adapter stack
   named in the op, with the colour conversion where the harness stacks one. Kinds without a model
-  here return `none`.
+  here (text, dotted strokes, the other primitives) return `none`.
 -/
 import EG.Driver.Util
 import EG.Model.StyledRect
@@ -30,6 +30,8 @@ import EG.Model.RoundedRect
 import EG.Model.Font
 import EG.Model.Adapters
 import EG.Model.FaultTarget
+import EG.Model.ImageRaw
+import EG.Model.Conv
 namespace EG.Driver
 open EG
 
@@ -111,6 +113,29 @@ private def pfxEntry (o : FRes × RootState) : String :=
 /-- `impl From<BinaryColor> for Rgb565` (Off = black, On = white), as raw values -/
 private def binToRgb565 (c : Color) : Color := if c % 2 == 1 then 65535 else 0
 
+/-- `Rgb565::from(Gray8)` on raw values, from the generated conversion table (C13's model) -/
+private def gray8ToRgb565 (c : Color) : Color :=
+  match Generated.convTable.find? (fun e => e.src == "Gray8" && e.dst == "Rgb565") with
+  | some e => (Conv.convert e c).getD 0
+  | none => 0
+
+/-- the image of a `faults.image` op: data byte `i` = `(i * 37 + 11) as u8`, `ImageRaw::<C>::new` (default data
+order `LittleEndianMsb0`), `s1 = raw.sub_image((1,0) 3x2)`, `s2 = s1.sub_image((1,1) 4x4)`; sub 0 / 1:
+`Image::new(.., (2,3))` of the raw image / of `s1`; sub 2: `Image::with_center(&s2, (2,3))`. -/
+private def faultImage (bits w h sub : Nat) : Option Img.Image :=
+  let bpr := (w * bits + 7) / 8
+  let data := (List.range (bpr * h)).map (fun i => (i * 37 + 11) % 256)
+  match Img.ImageRaw.new bits .le data ⟨w, h⟩ with
+  | .ok raw =>
+    let d0 := Img.Drawable.raw raw
+    let s1 := d0.subImage ⟨⟨1, 0⟩, ⟨3, 2⟩⟩
+    let s2 := s1.subImage ⟨⟨1, 1⟩, ⟨4, 4⟩⟩
+    some (match sub with
+      | 0 => Img.Image.new d0 ⟨2, 3⟩
+      | 1 => Img.Image.new s1 ⟨2, 3⟩
+      | _ => Img.Image.withCenter s2 ⟨2, 3⟩)
+  | .error _ => none
+
 /-- the call list, the adapter stack (root-most first) and the root kind of the wrapped op -/
 private def prefixSubject (stream : String) (t : Toks) : Option (List Call × Stack × Bool) :=
   if stream == "faults.shape" then
@@ -156,6 +181,18 @@ private def prefixSubject (stream : String) (t : Toks) : Option (List Call × St
     let (native, _) := t.nat
     match faultFont fi with
     | some f => some ((f.drawWhitespace (faultStyle mask) width ⟨3, 9⟩ (faultBaseline bl)).1, faultStack adapter, native == 1)
+    | none => none
+  else if stream == "faults.image" then
+    let (bits, t) := t.nat
+    let (w, t) := t.nat
+    let (h, t) := t.nat
+    let (sub, t) := t.nat
+    let (adapter, t) := t.nat
+    let (native, _) := t.nat
+    -- 1 / 8 bpp (BinaryColor / Gray8): `color_converted()` on top of the stack; 16 bpp (Rgb565): the stack alone
+    let conv : Stack := if bits == 1 then [.converted binToRgb565] else if bits == 8 then [.converted gray8ToRgb565] else []
+    match faultImage bits w h sub with
+    | some im => some (im.draw, faultStack (if adapter == 6 then 0 else adapter) ++ conv, native == 1)
     | none => none
   else if stream == "faults.pixel" then
     let (p, t) := t.pt
